@@ -234,8 +234,8 @@ def run(ctx: Ctx) -> None:
     nop = rows["NOP"]["cls"]
     r.check(total and default is nop, "from_integer|default", m.method("ToyInstruction", "from_integer").loc(),
             "words with an unassigned opcode do not decode to NOP")
-    r.check(sorted(chain) == list(range(12)), "from_integer|explicit", m.method("ToyInstruction", "from_integer").loc(),
-            f"explicit decode links are {sorted(chain)}, expected 0..11")
+    r.check(set(range(12)) <= set(chain), "from_integer|explicit", m.method("ToyInstruction", "from_integer").loc(),
+            f"opcodes decoded to a class of their own are {sorted(chain)}; 0..11 are required")
     fields_rule(ctx, "R06.fields")
 
 
